@@ -22,6 +22,16 @@ def put(name, body):
     pat = re.compile(r'(<!-- BEGIN %s -->\n).*?(<!-- END %s -->)' % (name, name), re.S)
     assert pat.search(s), name
     s = pat.sub(lambda m: m.group(1) + body + '\n' + m.group(2), s)
-put('seeded', seeded); put('fixed', fixed); put('open', openf)
+# as-built summary from the committed evidence files
+ab = []
+for f in sorted(glob.glob(V + '/evidence/C*.json')):
+    e = json.load(open(f)); c = e['coverage']
+    subs = ', '.join('`%s` (%s cases%s)' % (n, format(v['cases'], ','), ', exhaustive' if v.get('exhaustive') else '') for n, v in c.get('subchecks', {}).items())
+    fz = c.get('fuzz') or {}
+    if fz:
+        subs += '; libFuzzer `%s` (%s execs + %s replayed)' % (fz.get('target'), format(fz.get('execs', 0), ','), fz.get('replayed', 0))
+    ab.append('**%s** (%s tier, %s evaluations, %s distinct non-trivial, %.0f s): %s\n\n> %s\n' % (
+        e['property_id'], e['tier'], format(c['evaluations'], ','), format(c['distinct_nontrivial'], ','), e['wall_s'], subs, c['rule']))
+put('seeded', seeded); put('fixed', fixed); put('open', openf); put('asbuilt', '\n'.join(ab))
 open(V + '/DESIGN.md', 'w').write(s)
 print('seeded rows:', len(rows), 'fixed:', len(k['fixed']))
